@@ -71,3 +71,9 @@ check('C02',
       'Translation validation of the SQL emitted by the real generator: for every enumerated program the (statement, params) list is interpreted by vlib/sqlsmt.py over tables whose every cell is a z3 variable (value + NULL flag, 2 rows per table) and z3 decides whether any content makes a surviving column differ from its start value, an added column differ from its declared initial (NULL if none), a null->non-null change differ from coalesce(old, initial), a surviving table lose its rows, or a NULL reach a NOT NULL column. The expected cells are computed independently from the mutation list on model specs. Every sat model is replayed on real SQLite.',
       'The quantifier over programs is enumerated; values are integers with strings mapped injectively (type conversions and parameter quoting are exercised only by the replay). Statements outside the modelled subset make the program "unsupported", never a violation. Trusted: z3, vlib/sqlsmt.py, the reference column tracking in vlib/e2.py.',
       'z3 over the SMT semantics of the emitted INSERT..SELECT/UPDATE/ALTER statements with symbolic table contents; sat models replayed on real SQLite', category='translation_validation', design_ref='5.2')
+
+check('C03',
+      'Bounded model checking of the optimiser (AppMutator._preprocess_mutations and its batch processing) over all valid sequences of two mutations (thorough: 120 kind patterns of three) from 9 kinds x 2 models x 2 fields x 3-4 new names with reuse: the optimised list simulates to the same final signature as one-at-a-time application, the evolution definitions are left untouched, and a second pass over the same objects gives the same result. One genuine defect (RenameModel onto a just-freed name is reordered) is a known finding.',
+      'Signature level only (schema/row equality of the two runs is outside). The optimiser runs traced; reference run and comparison run untraced on the concrete data of the path. Sequences with two identical hints are excluded. Trusted: CrossHair+z3.',
+      'CrossHair symbolic execution (z3) of mutators/app_mutator.py optimiser over symbolic mutation sequences; counterexamples replayed concretely',
+      design_ref='5.3')
